@@ -29,6 +29,10 @@ func main() {
 		benign(enc, os.Args[2:])
 		return
 	}
+	if len(os.Args) > 1 && os.Args[1] == "-refactor" {
+		refactor(enc, os.Args[2:])
+		return
+	}
 	for _, path := range os.Args[1:] {
 		src, err := os.ReadFile(path)
 		if err != nil {
